@@ -842,6 +842,16 @@ func genBlockTxs(t *rapid.T) []*wire.Tx {
 		if len(tx.In) == 0 && len(tx.Out) != 0 {
 			tx.Out = nil // a 0-input transaction with outputs has no valid encoding; it would turn the whole block invalid
 		}
+		if i > 0 && len(tx.In) > 0 && rapid.IntRange(0, 4).Draw(t, "cbshape") == 0 {
+			// a transaction BEHIND the first one that has the shape of a coinbase (one input, null previous output):
+			// position, not shape, decides which transaction's wtxid is left at zero
+			tx.In = tx.In[:1]
+			tx.In[0].PrevHash = [32]byte{}
+			tx.In[0].PrevIndex = 0xffffffff
+			if len(tx.In[0].Witness) == 0 && rapid.IntRange(0, 2).Draw(t, "cbwit") != 0 {
+				tx.In[0].Witness = [][]byte{fill(uint64(i)+7, 32)}
+			}
+		}
 		txs = append(txs, tx)
 	}
 	return txs
@@ -930,6 +940,15 @@ func TestBlockBytes(t *testing.T) {
 			r.Class("ref_accepts")
 			if len(b)-80 > 2*4096 {
 				r.Class("multi_pack") // more than one parallel hashing pack in BuildTxListExt
+			}
+			for i, tx := range rbl.Txs {
+				if i > 0 && len(tx.In) == 1 && tx.In[0].PrevHash == [32]byte{} && tx.In[0].PrevIndex == 0xffffffff {
+					r.Class("coinbase_shaped_tx_behind_the_first")
+					if len(tx.In[0].Witness) > 0 {
+						r.Class("coinbase_shaped_witness_tx_behind_the_first")
+					}
+					break
+				}
 			}
 		}
 		if c.Kind != "pristine" && len(b) >= 90 || rerr == nil && len(rbl.Txs) >= 2 {
